@@ -248,6 +248,7 @@ impl Module for M {
         "styled primitives: exhaustive grid of shapes (all rect/ellipse sizes 0..=N squared, circle diameters 0..=2N, rounded rectangles with equal and unequal radii, \
          all lines / selected triangles / polylines with 0..=4 vertices on a lattice crossing the axes, arcs and sectors on an angle grid) x styles \
          (4 colour options x stroke widths x 3 alignments) x (C01: 3 target boxes, Rgb565 everywhere plus every 7th (shape, style) pair with BinaryColor / Gray8 / Rgb888 in rotation and an eighth of the random ops; C07: 6 offsets), then seeded random display-scale shapes (stroke widths up to 24 / 16), then for C02 / C07 DOTTED strokes (oracle only: rectangles of all sizes of a grid incl. squares and 8 x 60 x stroke widths on both sides of the dot-size clamp and of the square / round dot switch x alignments, seeded random ones within +-900 with widths up to 128, and seeded random shapes of every other kind with a dotted style; counters dotted:*, styled.*:dotted-<kind>) and a share of wide strokes (13..=128) on shapes of every kind placed within +-900 (quick 200, thorough 2000 ops). \
+         Model side: every op of every shape kind (arcs / sectors through the trailing `hk` hook tokens the generator appends: plane sector and bevel of the real code), except the dotted ones. \
          Non-trivial: the drawable paints at least one pixel (or, for C02 transparency, the style is transparent and the shape non-empty); distinct = distinct op text."
     }
 
